@@ -217,6 +217,17 @@ func (s *Scanner) checkNewLine(ch rune) rune {
 }
 
 func (s *Scanner) Scan() (Token, error) {
+	for {
+		token, err, skipped := s.scan()
+		if !skipped {
+			return token, err
+		}
+	}
+}
+
+// scan reads a token. When it has read a comment instead, skipped is true and the caller goes on with what follows:
+// a call of Scan from here would nest as deep as there are consecutive comments.
+func (s *Scanner) scan() (tok Token, scanError error, skipped bool) {
 	for unicode.IsSpace(s.peek()) {
 		s.next()
 	}
@@ -234,7 +245,7 @@ func (s *Scanner) Scan() (Token, error) {
 		case '?':
 			s.holderOrdinal++
 			s.holderNumber++
-			return Token{Token: PLACEHOLDER, Literal: literal, HolderOrdinal: s.holderOrdinal, Line: line, Char: char, SourceFile: s.sourceFile}, err
+			return Token{Token: PLACEHOLDER, Literal: literal, HolderOrdinal: s.holderOrdinal, Line: line, Char: char, SourceFile: s.sourceFile}, err, false
 		case ':':
 			if s.isIdentRune(s.peek()) {
 				s.scanIdentifier(ch)
@@ -244,7 +255,7 @@ func (s *Scanner) Scan() (Token, error) {
 					s.holderNames = append(s.holderNames, holderName)
 					s.holderNumber++
 				}
-				return Token{Token: PLACEHOLDER, Literal: holderName, HolderOrdinal: s.holderOrdinal, Line: line, Char: char, SourceFile: s.sourceFile}, err
+				return Token{Token: PLACEHOLDER, Literal: holderName, HolderOrdinal: s.holderOrdinal, Line: line, Char: char, SourceFile: s.sourceFile}, err, false
 			}
 		}
 	}
@@ -348,10 +359,10 @@ func (s *Scanner) Scan() (Token, error) {
 		token = EXTERNAL_COMMAND
 	case s.isCommentRune(ch):
 		s.scanComment()
-		return s.Scan()
+		return Token{}, nil, true
 	case s.isLineCommentRune(ch):
 		s.scanLineComment()
-		return s.Scan()
+		return Token{}, nil, true
 	default:
 		if ch == '\'' || (!s.ansiQuotes && ch == '"') {
 			err = s.scanString(ch)
@@ -369,7 +380,7 @@ func (s *Scanner) Scan() (Token, error) {
 		}
 	}
 
-	return Token{Token: int(token), Literal: literal, Quoted: quoted, Line: line, Char: char, SourceFile: s.sourceFile}, err
+	return Token{Token: int(token), Literal: literal, Quoted: quoted, Line: line, Char: char, SourceFile: s.sourceFile}, err, false
 }
 
 func (s *Scanner) scanString(quote rune) error {
